@@ -194,7 +194,16 @@ def gen_env(rnd, spec, ticks, rsize):
 
 
 def run_sims(reqs, timeout=1800):
-    out = C.jsonl(C.sh([C.BMH, "sim"], input="".join(json.dumps(r) + "\n" for r in reqs), timeout=timeout).stdout)
-    if len(out) != len(reqs):
-        raise C.Broken("sim harness answered %d of %d requests" % (len(out), len(reqs)))
+    """simulate every request in one harness process; when that process dies (a panic in a simulator goroutine cannot be recovered),
+    the requests are run one by one so that the one that kills it is known: its answer is {"err": "the simulator process dies: ..."}"""
+    p = C.sh([C.BMH, "sim"], input="".join(json.dumps(r) + "\n" for r in reqs), timeout=timeout, check=False)
+    out = C.jsonl(p.stdout) if p.returncode == 0 else []
+    if p.returncode == 0 and len(out) == len(reqs):
+        return out
+    if len(reqs) == 1:
+        why = [l for l in p.stderr.splitlines() if l.startswith("panic") or l.startswith("fatal error")]
+        return [{"err": "the simulator process dies: %s" % (why or [p.stderr.strip()[-300:] or "exit %d" % p.returncode])[0]}]
+    out = []
+    for r in reqs:
+        out += run_sims([r], timeout=timeout)
     return out
